@@ -1,4 +1,5 @@
 """C03 - a flow's log_prob is a normalised probability density (quadrature in 1-2 D + closed-form differential)."""
+import json
 import math
 
 import numpy as np
@@ -47,6 +48,14 @@ def _case(draw):
     else:
         c = draw(zoo.transform_case({"img": False, "flat_max": 6, "doms": ["R"], "fn_box": False, "umnn": False, "exclude": NO,
                                      "regimes": ["fresh", "small", "moderate", "nonuniform"]}))
+    if what == "mass1d" and draw(st.integers(0, 5)) == 0:
+        # squash with one temperature, spline on [0,1], un-squash with ANOTHER temperature: log-temperature bookkeeping
+        # errors do not cancel here (they do inside CompositeCDF, which uses one Sigmoid for both directions)
+        fam = draw(st.sampled_from(["cdf_lin", "cdf_quad", "cdf_rq"]))
+        c["shape"], c["ctx"] = [1], None
+        c["spec"] = {"t": "composite", "parts": [{"t": "sigmoid", "temp": draw(st.sampled_from([1.0, 0.6, 1.7])), "learn": draw(st.booleans())},
+                                                 {"t": fam, "bins": draw(st.integers(1, 4)), "tails": None},
+                                                 {"t": "logit", "temp": draw(st.sampled_from([1.0, 0.5, 2.0]))}]}
     c["what"] = what
     c["base"] = draw(st.sampled_from(["standard", "standard", "diagonal", "conditional"]))
     c["rows"] = draw(st.integers(1, 3))
@@ -172,6 +181,10 @@ def run_case(case):
             except Exception:
                 breaks = []
         breaks += [float(v) for v in b.specials if abs(v) < 1e3]
+        # panel edges on a geometric ladder around 0 and a regular grid in [-60, 60]: an adaptive rule whose first panels are
+        # hundreds wide (LogTanh stretches the 9-sigma box to +-1e4) would otherwise step over all of the mass
+        breaks += [sgn * 10.0 ** k for k in np.arange(-3, 7, 0.5) for sgn in (-1, 1)] + list(np.linspace(-60, 60, 6001))  # 0.02-wide first panels: knots of inner parts are not aligned after a linear/affine layer
+        clamp_allow = 5e-4 if "compositecdf" in json.dumps(case["spec"]) or "logit" in json.dumps(case["spec"]) else 0.0
 
         if what == "mass1d":
             boxes = []
@@ -187,7 +200,13 @@ def run_case(case):
                     boxes.append((lo - pad, hi + pad))
             except Exception:
                 pass
-            boxes.append((-60.0, 60.0))
+            if not boxes:
+                # where the mass sits is unknown (e.g. LogTanh squeezes e^30 into 13): no box can be trusted
+                res.inconclusive += 1
+                res.labels.append("mass_location_unknown")
+                return res
+            if boxes[0][0] > -60.0 and boxes[0][1] < 60.0:
+                boxes.append((-60.0, 60.0))   # independent of the inverse: catches maps that are not onto
             masses = []
             for lo, hi in boxes:
                 try:
@@ -207,7 +226,9 @@ def run_case(case):
             res.nontrivial = not _affine_only(case["spec"])
             # the largest converged mass is the best lower bound on the total; it must also not exceed 1
             v, e, lo, hi = max(masses, key=lambda m: m[0])
-            tol = 5e-5 + 10 * e
+            # (Sigmoid.eps: beyond |x| ~ 13.8 CompositeCDF's output is clamped while its log-det keeps decaying like e^-|x|;
+            #  with a shifted/wide base that tail carries up to ~1e-4 of spurious mass - the declared constant, not a defect)
+            tol = 5e-5 + 10 * e + clamp_allow
             res.see_ratio(abs(v - 1), tol)
             if abs(v - 1) > tol:
                 res.fail("not_normalised", site, "integral of exp(log_prob) over [%.4g, %.4g] = %.8f (err est %.1g); base %s, regime %s" % (
